@@ -730,6 +730,17 @@ def build_table(fn_name, d):
     if fn_name == "getitem":
         idx = _index(d["index"], d["n"])
         return (lambda a, i: a[i]), (t, idx), [t, idx], ""
+    if fn_name == "getitem+setattr":
+        # explicit assignment on the RESULT of indexing (another object than the table, also when the index keeps every row)
+        idx = _index(d["index"], d["n"])
+        col_name = "start" if hasattr(t, "start") else dataclasses.fields(t)[0].name
+
+        def index_then_assign(a, i):
+            r = a[i]
+            v = getattr(r, col_name)
+            setattr(r, col_name, v + 1 if col_name == "start" else v[::-1])
+            return r
+        return index_then_assign, (t, idx), [t, idx], ""
     return _table_functions()[fn_name], (t,), [t], ""
 
 
@@ -745,10 +756,17 @@ def cases_table(tier, rng):
             idxs += [["mask", list(m)] for m in itertools.product((False, True), repeat=n)]
             idxs += [["list", list(p)] for k in (1, 2) for p in itertools.permutations(range(n), k)]
             idxs += [["array", [n - 1, 0]], ["int", 0], ["int", n - 1], ["int", -1]]
+            all_idxs = idxs
             if not full:
                 idxs = idxs[::3]
             for idx in idxs:
                 yield "getitem", {"kind": kind, "n": n, "index": idx}
+            # assignment to a column of table[index] leaves the table alone - every boolean mask (the one that keeps every
+            # row included), the index lists / arrays that keep every row, (thorough) every other index that gives a table
+            keep_all = [["list", list(range(n))], ["array", list(range(n))], ["slice", 0, n, None], ["slice", None, None, None]]
+            for idx in ([i for i in all_idxs if i[0] != "int" and i not in keep_all] if full else
+                        [i for i in all_idxs if i[0] == "mask"]) + keep_all:
+                yield "getitem+setattr", {"kind": kind, "n": n, "index": idx}
 
 
 BUILDERS["table"] = build_table
@@ -1095,6 +1113,16 @@ def _check_unchanged(col, env, B, p0, case, sig, why):
     return ok
 
 
+KEEP_INDEX_KINDS = ("mask-all", "list-all", "array-all", "slice-0-n", "mask-tail", "mask-head")
+
+
+def _keep_index(kind, n):
+    """indices that keep every row of a chunk of n rows (and two masks that drop one row)"""
+    import numpy as np
+    return {"mask-all": lambda: np.ones(n, dtype=bool), "list-all": lambda: list(range(n)), "array-all": lambda: np.arange(n),
+            "slice-0-n": lambda: slice(0, n), "mask-tail": lambda: np.arange(n) > 0, "mask-head": lambda: np.arange(n) < n - 1}[kind]()
+
+
 def _eval_chunk(col, env, scenario, case, sig):
     import numpy as np
     import bionumpy as bnp
@@ -1180,6 +1208,26 @@ def _eval_chunk(col, env, scenario, case, sig):
         if r1 is not None:
             r2 = env.write(R)
             col.check(r1 == r2, sig("modified-write-not-repeatable"), case, "%r then %r" % (r1[-200:], r2[-200:]))
+        _check_unchanged(col, env, B, p0, case, sig, what)
+        for p in env.paths:
+            got = read_snap(B, p)
+            col.check(got == env.V0[p], sig("field-changed-by-" + what), case, "field %s: %s" % (p, first_diff(env.V0[p], got)))
+    elif kind == "setattr-index":
+        # explicit assignment on chunk[index] - ANOTHER object than the chunk, also when the index keeps every row
+        k, ik = scenario[1], scenario[2]
+        R = B[_keep_index(ik, env.n_entries)]
+        if len(R) == 0:
+            return
+        new = _new_value(read_field(R, k))
+        if new is None:
+            return
+        setattr(R, k, new)
+        what = "assignment-to-an-indexed-copy"
+        got = read_snap(B, k)
+        col.check(got == env.V0[k], sig("field-changed-by-" + what), case,
+                  "field %s of the original chunk after chunk[%s].%s = ...: %s" % (k, ik, k, first_diff(env.V0[k], got)))
+        _check_unchanged(col, env, B, p0, case, sig, what)
+        _use(env, R)
         _check_unchanged(col, env, B, p0, case, sig, what)
         for p in env.paths:
             got = read_snap(B, p)
@@ -1666,6 +1714,11 @@ def chunk_scenarios(env, tier, full_file):
             yield ["replace", k]
             if level >= 1:
                 yield ["setattr-slice", k]
+        # assignment on chunk[index] for indices that keep every row (boolean mask, index list, index array, slice)
+        S = _settable(env)
+        for k in S[:(len(S), 2, 1)[2 - level]]:
+            for ik in KEEP_INDEX_KINDS[:(len(KEEP_INDEX_KINDS), 3, 1)[2 - level]]:
+                yield ["setattr-index", k, ik]
     if level >= 1:
         c = env.fresh()
         n_text = 0
